@@ -196,17 +196,19 @@ class NICObservation(AbstractObservation, discriminator="network-interface"):
                         for port in self.monitored_traffic[protocol]:
                             obs["TRAFFIC"][protocol][port] = {"inbound": 0, "outbound": 0}
 
-        if self.capture_nmne and self.include_nmne:
-            obs.update({"NMNE": {}})
-            direction_dict = nic_state["nmne"].get("direction", {})
-            inbound_keywords = direction_dict.get("inbound", {}).get("keywords", {})
-            inbound_count = inbound_keywords.get("*", 0)
-            outbound_keywords = direction_dict.get("outbound", {}).get("keywords", {})
-            outbound_count = outbound_keywords.get("*", 0)
-            obs["NMNE"]["inbound"] = self._categorise_mne_count(inbound_count - self.nmne_inbound_last_step)
-            obs["NMNE"]["outbound"] = self._categorise_mne_count(outbound_count - self.nmne_outbound_last_step)
-            self.nmne_inbound_last_step = inbound_count
-            self.nmne_outbound_last_step = outbound_count
+        if self.include_nmne:
+            # the space declares NMNE whenever it is included; without capture there is nothing to count
+            obs["NMNE"] = {"inbound": 0, "outbound": 0}
+            if self.capture_nmne:
+                direction_dict = nic_state["nmne"].get("direction", {})
+                inbound_keywords = direction_dict.get("inbound", {}).get("keywords", {})
+                inbound_count = inbound_keywords.get("*", 0)
+                outbound_keywords = direction_dict.get("outbound", {}).get("keywords", {})
+                outbound_count = outbound_keywords.get("*", 0)
+                obs["NMNE"]["inbound"] = self._categorise_mne_count(inbound_count - self.nmne_inbound_last_step)
+                obs["NMNE"]["outbound"] = self._categorise_mne_count(outbound_count - self.nmne_outbound_last_step)
+                self.nmne_inbound_last_step = inbound_count
+                self.nmne_outbound_last_step = outbound_count
         return obs
 
     @property
